@@ -90,99 +90,150 @@ vp_free(void *p)
 
 enum { VP_SLOT_UNUSED = 0, VP_SLOT_LIVE = 1, VP_SLOT_FREED = 2 };
 
-static struct sx_node vp_node_pool[NNODES];
-static struct sx_pair vp_pair_pool[NPAIRS];
-static char vp_sym_pool[NSYMS][SYMSZ];
-static unsigned char vp_node_state[NNODES];
-static unsigned char vp_pair_state[NPAIRS];
-static unsigned char vp_sym_state[NSYMS];
+/* Every slot is an object of its own (not an element of a pool array): a
+ * store through an allocated pointer then is a choice between whole objects
+ * at offset 0. With pool arrays the slot index is symbolic after the first
+ * branch, and CBMC encodes a store to a union member at a symbolic array
+ * index as a byte-wise update of the whole array (measured: 4-6 M variables
+ * for ONE list step at LEN 1). */
+#define VP_MAXSLOTS 12
+#if NNODES > VP_MAXSLOTS || NPAIRS > VP_MAXSLOTS || NSYMS > VP_MAXSLOTS
+#error "pool bound above VP_MAXSLOTS"
+#endif
+#define VP_SLOTS(T, name)                                                      \
+    static T name##0, name##1, name##2, name##3, name##4, name##5, name##6,    \
+        name##7, name##8, name##9, name##10, name##11
+#define VP_SLOT_ADDRS(name)                                                    \
+    { &name##0, &name##1, &name##2, &name##3, &name##4, &name##5, &name##6,    \
+      &name##7, &name##8, &name##9, &name##10, &name##11 }
+
+struct vp_symslot {
+    char c[SYMSZ];
+};
+VP_SLOTS(struct sx_node, vp_node_);
+VP_SLOTS(struct sx_pair, vp_pair_);
+VP_SLOTS(struct vp_symslot, vp_sym_);
+static unsigned char vp_node_state[VP_MAXSLOTS];
+static unsigned char vp_pair_state[VP_MAXSLOTS];
+static unsigned char vp_sym_state[VP_MAXSLOTS];
 static unsigned vp_node_next, vp_pair_next, vp_sym_next;
 
 /* bound of the instance exceeded: classified like a loop bound (inconclusive) */
 #define VP_POOL_EXCEEDED() \
     __CPROVER_assert(0, "unwinding assertion: C20 allocator pool bound of the instance exceeded")
 
+/* slot k of at most n (n is a compile-time constant: slots >= n fold away, so
+ * the pointer's value set has exactly n members) */
+#define VP_PICK(name, k, n)                                                    \
+    ((n) > 11 && (k) == 11 ? (void *)&name##11 :                               \
+     (n) > 10 && (k) == 10 ? (void *)&name##10 :                               \
+     (n) > 9 && (k) == 9 ? (void *)&name##9 :                                  \
+     (n) > 8 && (k) == 8 ? (void *)&name##8 :                                  \
+     (n) > 7 && (k) == 7 ? (void *)&name##7 :                                  \
+     (n) > 6 && (k) == 6 ? (void *)&name##6 :                                  \
+     (n) > 5 && (k) == 5 ? (void *)&name##5 :                                  \
+     (n) > 4 && (k) == 4 ? (void *)&name##4 :                                  \
+     (n) > 3 && (k) == 3 ? (void *)&name##3 :                                  \
+     (n) > 2 && (k) == 2 ? (void *)&name##2 :                                  \
+     (n) > 1 && (k) == 1 ? (void *)&name##1 : (void *)&name##0)
+
+/* One function per kind of block, so that the pointer a call site receives
+ * can only point to blocks of that kind (value sets are per return value). */
 static void *
-vp_alloc(size_t n, bool zero)
+vp_alloc_node(void)
 {
-    if (n == sizeof(struct sx_node) && !zero) {
-        if (vp_node_next >= NNODES) {
-            VP_POOL_EXCEEDED();
-            __CPROVER_assume(0);
-        }
-        struct sx_node *p = &vp_node_pool[vp_node_next];
-        vp_node_state[vp_node_next] = VP_SLOT_LIVE;
-        vp_node_next++;
-        p->type = (enum sx_node_type)(vp_junk * 0x01010101u);
-        p->data.u64 = vp_junk * 0x0101010101010101ull;
-        vp_live++;
-        vp_allocs++;
-        return p;
-    }
-    if (n == sizeof(struct sx_pair) && zero) {
-        if (vp_pair_next >= NPAIRS) {
-            VP_POOL_EXCEEDED();
-            __CPROVER_assume(0);
-        }
-        struct sx_pair *p = &vp_pair_pool[vp_pair_next];
-        vp_pair_state[vp_pair_next] = VP_SLOT_LIVE;
-        vp_pair_next++;
-        p->car = NULL;
-        p->cdr = NULL;
-        vp_live++;
-        vp_allocs++;
-        return p;
-    }
-    if (n > SYMSZ || vp_sym_next >= NSYMS) {
+    if (vp_node_next >= NNODES) {
         VP_POOL_EXCEEDED();
         __CPROVER_assume(0);
     }
-    char *p = vp_sym_pool[vp_sym_next];
-    vp_sym_state[vp_sym_next] = VP_SLOT_LIVE;
-    vp_sym_next++;
-    for (size_t k = 0; k < SYMSZ; ++k)
-        p[k] = zero ? 0 : (char)vp_junk;
+    struct sx_node *p = VP_PICK(vp_node_, vp_node_next, NNODES);
+    vp_node_state[vp_node_next] = VP_SLOT_LIVE;
+    vp_node_next++;
+    p->type = (enum sx_node_type)(vp_junk * 0x01010101u);
+    p->data.u64 = vp_junk * 0x0101010101010101ull;
     vp_live++;
     vp_allocs++;
     return p;
 }
 
 static void *
-vp_malloc(size_t n)
+vp_alloc_pair(void)
 {
-    return vp_alloc(n, false);
+    if (vp_pair_next >= NPAIRS) {
+        VP_POOL_EXCEEDED();
+        __CPROVER_assume(0);
+    }
+    struct sx_pair *p = VP_PICK(vp_pair_, vp_pair_next, NPAIRS);
+    vp_pair_state[vp_pair_next] = VP_SLOT_LIVE;
+    vp_pair_next++;
+    p->car = NULL;
+    p->cdr = NULL;
+    vp_live++;
+    vp_allocs++;
+    return p;
 }
 
 static void *
-vp_calloc(size_t a, size_t b)
+vp_alloc_bytes(size_t n, bool zero)
 {
-    return vp_alloc(a * b, true);
+    if (n > SYMSZ || vp_sym_next >= NSYMS) {
+        VP_POOL_EXCEEDED();
+        __CPROVER_assume(0);
+    }
+    struct vp_symslot *p = VP_PICK(vp_sym_, vp_sym_next, NSYMS);
+    vp_sym_state[vp_sym_next] = VP_SLOT_LIVE;
+    vp_sym_next++;
+    for (size_t k = 0; k < SYMSZ; ++k)
+        p->c[k] = zero ? 0 : (char)vp_junk;
+    vp_live++;
+    vp_allocs++;
+    return p->c;
 }
 
-/* slot lookup by object identity + offset (one symbolic array access instead
- * of one pointer comparison per slot: measured 30 k fewer SSA steps per
- * sx_destroy tree at 6 slots) */
-#define VP_FREE_FROM(pool, state, elsize)                                        \
-    if (__CPROVER_POINTER_OBJECT(p) == __CPROVER_POINTER_OBJECT((void *)(pool))) { \
-        const size_t off = __CPROVER_POINTER_OFFSET(p);                          \
-        const size_t k = off / (elsize);                                         \
-        if (off % (elsize) != 0 || k >= sizeof(state) || (state)[k] != VP_SLOT_LIVE) { \
-            vp_bad_free++;                                                       \
-        } else {                                                                 \
-            (state)[k] = VP_SLOT_FREED;                                          \
-            vp_live--;                                                           \
-        }                                                                        \
-        return;                                                                  \
+/* The request sizes in sx.c are compile-time constants, so the selection
+ * below folds to a single call; with a run-time size both kinds stay possible
+ * (still exact, only more expensive). Blocks of the node's size are typed as
+ * nodes when malloc'ed and as pairs when calloc'ed; anything else is octets. */
+#define vp_malloc(n) \
+    ((n) == sizeof(struct sx_node) ? vp_alloc_node() : vp_alloc_bytes((n), false))
+#define vp_calloc(a, b) \
+    ((size_t)(a) * (b) == sizeof(struct sx_pair) && (b) != 1u ? vp_alloc_pair() \
+                                                           : vp_alloc_bytes((size_t)(a) * (b), true))
+
+static void
+vp_free_slot(unsigned char *state, unsigned k)
+{
+    if (state[k] == VP_SLOT_LIVE) {
+        state[k] = VP_SLOT_FREED;
+        vp_live--;
+    } else {
+        vp_bad_free++;
     }
+}
 
 static void
 vp_free(void *p)
 {
     if (p == NULL)
         return;
-    VP_FREE_FROM(vp_node_pool, vp_node_state, sizeof(struct sx_node))
-    VP_FREE_FROM(vp_pair_pool, vp_pair_state, sizeof(struct sx_pair))
-    VP_FREE_FROM(vp_sym_pool, vp_sym_state, (size_t)SYMSZ)
+    static void *const nodes[VP_MAXSLOTS] = VP_SLOT_ADDRS(vp_node_);
+    static void *const pairs[VP_MAXSLOTS] = VP_SLOT_ADDRS(vp_pair_);
+    static void *const syms[VP_MAXSLOTS] = VP_SLOT_ADDRS(vp_sym_);
+    for (unsigned k = 0; k < NNODES; ++k)
+        if (p == nodes[k]) {
+            vp_free_slot(vp_node_state, k);
+            return;
+        }
+    for (unsigned k = 0; k < NPAIRS; ++k)
+        if (p == pairs[k]) {
+            vp_free_slot(vp_pair_state, k);
+            return;
+        }
+    for (unsigned k = 0; k < NSYMS; ++k)
+        if (p == syms[k]) {
+            vp_free_slot(vp_sym_state, k);
+            return;
+        }
     vp_bad_free++;
 }
 
